@@ -137,6 +137,14 @@ class AbstractBFGS(AbstractMLE):
 
         maxiter = self.config_dict_options.get("maxiter", 1e8)
 
+        if total_iterations == 0 and maxiter <= 0:
+            # no iteration is allowed: the starting point is the result
+            search_internal = optimize.OptimizeResult(x=x0, nit=0, success=False)
+            search_internal.log_posterior_list = -0.5 * fitness(parameters=x0)
+            if self.visualize:
+                search_internal.parameters_history_list = fitness.parameters_history_list
+                search_internal.log_likelihood_history_list = fitness.log_likelihood_history_list
+
         while total_iterations < maxiter:
             iterations_remaining = maxiter - total_iterations
 
